@@ -136,8 +136,30 @@ def b01 (b : Bool) : String := if b then "1" else "0"
 
 def ints (s : String) : Option (List Int) := if s = "-" then some [] else (s.splitOn ",").mapM (·.toInt?)
 
+def utf8 (n : Nat) : List Char :=
+  if n < 0x80 then [Char.ofNat n]
+  else if n < 0x800 then [Char.ofNat (0xC0 + n / 64), Char.ofNat (0x80 + n % 64)]
+  else [Char.ofNat (0xE0 + n / 4096), Char.ofNat (0x80 + n / 64 % 64), Char.ofNat (0x80 + n % 64)]
+
+def hexDigit? (c : Char) : Nat :=
+  if c.toNat ≤ 57 then c.toNat - 48 else if c.toNat ≤ 70 then c.toNat - 55 else c.toNat - 87
+
+/-- render the segments of `bstrUnmarshal`: literal bytes; `strconv.Unquote("\uHHHH")` as UTF-8
+(nothing for a surrogate half: the error is ignored) -/
+def renderBSeg (s : List Char) : BSeg → List Char
+  | .lit a b => (s.drop a).take (b - a)
+  | .code a b =>
+    let n := ((s.drop a).take (b - a)).foldl (fun acc c => acc * 16 + hexDigit? c) 0
+    if 0xD800 ≤ n ∧ n ≤ 0xDFFF then [] else utf8 n
+
 def stepSites (w : List String) : Option String :=
   match w with
+  | ["gr", flags] =>
+    some (showO (fun (n : Nat) => "ok " ++ toString n) (getRows (if flags = "-" then [] else flags.toList.map (· == '1'))))
+  | ["bs", h] =>
+    match unhexS h with
+    | some s => some (showO (fun (segs : List BSeg) => "ok " ++ hexS (segs.flatMap (renderBSeg s))) (bstrUnmarshal s))
+    | none => some "bad-op"
   | ["st", idx, nXf, fp, fid, nf, bp, bid, nb, np, nid, nn] =>
     match [idx, nXf, fp, fid, nf, bp, bid, nb, np, nid, nn].mapM (·.toInt?) with
     | some [idx, nXf, fp, fid, nf, bp, bid, nb, np, nid, nn] =>
